@@ -25,6 +25,7 @@ const (
 type intRules struct {
 	Min, Max   bool
 	XMin, XMax int // 0 unset, 1 true, 2 false
+	Bad        int // 0 bounds fine; 1 minimum > maximum (both present); 2 a bound outside the format's range
 }
 
 type fty struct {
@@ -91,7 +92,7 @@ func (t fty) Coq() string {
 		f := map[string]string{"INT32": "I32", "INT64": "I64", "UINT32": "U32", "UINT64": "U64"}[t.Fmt]
 		r := "None"
 		if t.IR != nil {
-			r = fmt.Sprintf("(Some (mkIR %s %s %s %s))", b(t.IR.Min), b(t.IR.Max), optBool(t.IR.XMin), optBool(t.IR.XMax))
+			r = fmt.Sprintf("(Some (mkIR %s %s %s %s %s))", b(t.IR.Min), b(t.IR.Max), optBool(t.IR.XMin), optBool(t.IR.XMax), b(t.IR.Bad != 0 && (t.IR.Min || t.IR.Max)))
 		}
 		return fmt.Sprintf("(TInteger %s %s %s)", f, r, b(t.LRules))
 	case "key":
@@ -248,12 +249,23 @@ func (t fty) body(prefix string) []string {
 	case "integer":
 		if t.IR != nil {
 			n := 0
+			lo, hi := "1", "9"
+			switch {
+			case t.IR.Bad == 1 && t.IR.Min && t.IR.Max:
+				lo, hi = "9", "1"
+			case t.IR.Bad != 0 && t.IR.Min:
+				// beyond the 32-bit ranges (the lexer has no negative literals, and nothing is out of range for 64 bits)
+				lo = map[string]string{"INT32": "3000000000", "UINT32": "5000000000"}[t.Fmt]
+				hi = "9"
+			case t.IR.Bad != 0 && t.IR.Max:
+				hi = map[string]string{"INT32": "3000000000", "UINT32": "5000000000"}[t.Fmt]
+			}
 			if t.IR.Min {
-				add("rules.minimum = 1")
+				add("rules.minimum = " + lo)
 				n++
 			}
 			if t.IR.Max {
-				add("rules.maximum = 9")
+				add("rules.maximum = " + hi)
 				n++
 			}
 			if t.IR.XMin != 0 {
@@ -429,15 +441,28 @@ func allFtys(full bool) []fty {
 					for _, mx := range bools {
 						for xmn := 0; xmn < 3; xmn++ {
 							for xmx := 0; xmx < 3; xmx++ {
-								out = append(out, fty{Kind: "integer", Fmt: f, LRules: lr, IR: &intRules{mn, mx, xmn, xmx}})
+								out = append(out, fty{Kind: "integer", Fmt: f, LRules: lr, IR: &intRules{mn, mx, xmn, xmx, 0}})
+							}
+						}
+						if mn || mx {
+							// bounds the rule cannot express: a bound out of range, minimum above maximum
+							if f == "INT32" || f == "UINT32" {
+								out = append(out, fty{Kind: "integer", Fmt: f, LRules: lr, IR: &intRules{mn, mx, 0, 0, 2}})
+							}
+							if mn && mx {
+								out = append(out, fty{Kind: "integer", Fmt: f, LRules: lr, IR: &intRules{mn, mx, 0, 0, 1}})
 							}
 						}
 					}
 				}
 			} else {
 				out = append(out, fty{Kind: "integer", Fmt: f, LRules: lr, IR: &intRules{Min: true}})
-				out = append(out, fty{Kind: "integer", Fmt: f, LRules: lr, IR: &intRules{true, true, 1, 2}})
-				out = append(out, fty{Kind: "integer", Fmt: f, LRules: lr, IR: &intRules{false, false, 2, 0}})
+				out = append(out, fty{Kind: "integer", Fmt: f, LRules: lr, IR: &intRules{true, true, 1, 2, 0}})
+				out = append(out, fty{Kind: "integer", Fmt: f, LRules: lr, IR: &intRules{false, false, 2, 0, 0}})
+				out = append(out, fty{Kind: "integer", Fmt: f, LRules: lr, IR: &intRules{true, true, 0, 0, 1}})
+				if f == "UINT32" {
+					out = append(out, fty{Kind: "integer", Fmt: f, LRules: lr, IR: &intRules{true, false, 0, 0, 2}})
+				}
 			}
 		}
 	}
